@@ -205,6 +205,21 @@ func cmdCheck(args []string) int {
 		for _, n := range fe.notes {
 			notes = append(notes, fe.fnName()+": "+n)
 		}
+		if c.AssumePre {
+			notes = append(notes, fe.fnName()+": the preconditions of its callees are assumed, not proved (assumepre)")
+		} else if len(c.AssumePreOf) > 0 {
+			notes = append(notes, fe.fnName()+": the preconditions of these callees are assumed, not proved: "+strings.Join(c.AssumePreOf, ", "))
+		}
+		if c.NoSafety {
+			notes = append(notes, fe.fnName()+": partial correctness only (no nil/bounds/div/panic obligations: executions that panic are not considered)")
+		} else if len(c.NoSafetyKinds) > 0 {
+			var ks []string
+			for k := range c.NoSafetyKinds {
+				ks = append(ks, k)
+			}
+			sort.Strings(ks)
+			notes = append(notes, fe.fnName()+": obligations of these kinds are assumed away: "+strings.Join(ks, ", "))
+		}
 		for _, h := range fe.havocs {
 			if strings.Contains(h, "no contract") {
 				trusted["havoc: "+h] = true
